@@ -654,19 +654,26 @@ class Discharger:
         lid = marks[0][1]
         facts = list(ob.facts)
         changed = True
-        while changed:
+        loop_lits = flatten_facts(ob.summary.loops[lid].cond)
+        exit_lits = []
+        for e in ob.summary.exits:
+            if not e.loops or e.loops[-1] != lid:
+                continue
+            lits = [(a, p) for a, p in flatten_facts(e.cond) if a[0] not in ("inloop",)]
+            exit_lits.append([(l, (strip(l[0]), l[1])) for l in lits if l not in loop_lits])
+        rounds = 0
+        while changed and rounds < 50:
             changed = False
-            flat = flatten_facts(tuple(facts))
-            for e in ob.summary.exits:
-                if not e.loops or e.loops[-1] != lid:
-                    continue
-                lits = [(a, p) for a, p in flatten_facts(e.cond) if a[0] not in ("inloop",)]
-                lits = [l for l in lits if l not in flatten_facts(ob.summary.loops[lid].cond)]
-                unknown = [l for l in lits if (strip(l[0]), l[1]) not in [(strip(a), p) for a, p in flat]]
+            rounds += 1
+            flat_s = {(strip(a), p) for a, p in flatten_facts(tuple(facts))}
+            for lits in exit_lits:
+                unknown = [l for l, ls in lits if ls not in flat_s]
                 if len(unknown) == 1:
                     neg = (unknown[0][0], not unknown[0][1])
-                    if (strip(neg[0]), neg[1]) not in [(strip(a), p) for a, p in flat]:
+                    key = (strip(neg[0]), neg[1])
+                    if key not in flat_s:
                         facts.append(neg)
+                        flat_s.add(key)
                         changed = True
         return Obligation(ob.kind, ob.term, tuple(facts), ob.func, ob.summary, ob.node, ob.detail)
 
